@@ -178,6 +178,25 @@ func init() {
 		}
 		return nil
 	}
+	// maps.clone (runtime-linked): a shallow copy of the map behind the interface value
+	in["maps.clone"] = func(fr *frame, a []value) value {
+		ifc, ok := a[0].(iface)
+		if !ok {
+			panic(unsupported("maps.clone of a non-interface value"))
+		}
+		m, ok := ifc.v.(*hashmap)
+		if !ok {
+			panic(unsupported("maps.clone of a non-map value"))
+		}
+		if m == nil {
+			return ifc
+		}
+		cp := makeMap(m.keyType, int64(m.len())).(*hashmap)
+		for _, e := range m.live() {
+			cp.insert(e.key, e.value)
+		}
+		return iface{t: ifc.t, v: cp}
+	}
 	in[rtPrefix+"Reps"] = func(fr *frame, a []value) value { return 1 }
 	in[rtPrefix+"MapOrder"] = func(fr *frame, a []value) value {
 		name, _ := argStr(a[0])
